@@ -39,6 +39,10 @@ import (
 
 const prop = "C20"
 
+// slowSignerOneIn: share of quick-tier runs given to the slow SLH-DSA "s" sets
+// (64 000 runs of a default quick check → about 23 such runs, 3 signatures each).
+const slowSignerOneIn = 2800
+
 // outerT is the *testing.T of TestEntropy: cryptotest.SetGlobalRandom needs it.
 var outerT *testing.T
 
@@ -49,10 +53,12 @@ func TestMain(m *testing.M) {
 		"second-handle-same-key", "subtle-constructor", "writer-repeat-on-primitive", "interleaved-keys", "full-sweep", "edge-position",
 		"field-delivered-by-short-reads", "ecdh-recompute-x25519", "ecdh-recompute-nist", "p521-masked-byte-flipped", "mlkem-consecutive",
 		"xwing-both-halves", "ecies-dem-iv", "ecies-compressed-point", "composite-two-draws", "dead-position-swept", "keygen-symmetric-copy",
-		"keygen-asymmetric-copy", "keygen-asymmetric-fn", "keygen-nonrandomized-type", "pooled-key", "jwt-signature", "id-spread-batch", "keyid-spread-judged", "caller-appends-to-random-bytes",
+		"keygen-asymmetric-copy", "keygen-asymmetric-fn", "keygen-nonrandomized-type", "pooled-key", "jwt-signature", "id-spread-batch", "keyid-spread-judged", "caller-appends-to-random-bytes", "repeated-signature-direct",
 		"kms-envelope-fresh-dek", "manager-delete", "manager-setprimary", "manager-disable-enable", "add-after-delete", "mldsa-prehash-signer", "output-verified")
 	if core.Thorough() {
 		core.DeclareProbes("rsa-primes-located-in-stream", "slhdsa-keygen-seeds-copied", "cost2-produce")
+	} else {
+		core.DeclareProbes("slow-signer-run")
 	}
 	core.Main(m, prop, "entropy", map[string]string{
 		"aead / streamingaead / hybrid / signature / jwt factories and key types": "real",
@@ -301,8 +307,17 @@ func buildLists() {
 	})
 }
 
-// about 75 % cheap, 22 % Cost 1, 3 % Cost 2 (shrinks towards cheap)
-var tierWeights = []int{0, 0, 0, 0, 0, 0, 0, 0, 0, 0, 0, 0, 0, 0, 0, 0, 0, 0, 0, 0, 0, 0, 0, 0, 0, 0, 0, 1, 1, 1, 1, 1, 1, 1, 1, 2}
+// about 78 % cheap, 20 % Cost 1, 2 % Cost 2 (shrinks towards cheap)
+var tierWeights = func() []int {
+	var l []int
+	for i := 0; i < 39; i++ {
+		l = append(l, 0)
+	}
+	for i := 0; i < 10; i++ {
+		l = append(l, 1)
+	}
+	return append(l, 2)
+}()
 
 func drawEntry(t *rapid.T, l *tiers, label string) catalog.Entry {
 	tier := rapid.SampledFrom(tierWeights).Draw(t, label+"Tier")
@@ -334,7 +349,7 @@ func (ks *keyState) fnSkip() bool {
 	case ks.e.Cost == 0:
 		return false
 	case ks.e.Cost == 1:
-		return ks.fnRuns > 3
+		return ks.fnRuns > 2
 	case core.Thorough():
 		return ks.fnRuns > 2
 	}
@@ -817,7 +832,7 @@ func (w *world) sensitivity(wn win, s fnSpec) {
 	if s.all {
 		mode = "all"
 	} else if s.cost == 0 && len(univ) <= 80 {
-		mode = rapid.SampledFrom([]string{"sample", "sample", "sample", "all"}).Draw(w.t, "fnMode")
+		mode = rapid.SampledFrom([]string{"sample", "sample", "sample", "sample", "all"}).Draw(w.t, "fnMode")
 	}
 	var pos, dead []int
 	if mode == "all" {
@@ -829,7 +844,7 @@ func (w *world) sensitivity(wn win, s fnSpec) {
 		case 0:
 			k = rapid.IntRange(2, 5).Draw(w.t, "fnCount")
 		case 1:
-			k = rapid.IntRange(2, 4).Draw(w.t, "fnCount")
+			k = rapid.IntRange(2, 3).Draw(w.t, "fnCount")
 		default:
 			k = rapid.IntRange(2, 3).Draw(w.t, "fnCount")
 		}
@@ -1267,9 +1282,10 @@ func (w *world) wrap(ks *keyState) *keyset.Handle {
 	return h
 }
 
-func (w *world) addKey() {
+func (w *world) addKey() { w.addKeyFor(drawEntry(w.t, &prodList, "keyEntry")) }
+
+func (w *world) addKeyFor(e catalog.Entry) {
 	t := w.t
-	e := drawEntry(t, &prodList, "keyEntry")
 	ks := &keyState{e: e, loc: entryLoc(e), seen: map[string]map[string]bool{}, sigs: map[string][][]byte{}}
 	if catalog.Pooled(e) {
 		var k key.Key
@@ -1307,6 +1323,91 @@ func (w *world) addKey() {
 		ks.prims = append(ks.prims, alt)
 	}
 	w.keys = append(w.keys, ks)
+	if e.Class == catalog.Signature || e.Class == catalog.JWTSignature {
+		for _, sp := range ks.prims {
+			w.repeatedSign(ks, sp, false)
+		}
+	}
+}
+
+// repeatedSign asserts C20's clause "repeated signing of one message with a
+// randomized scheme gives different signatures" directly, for every signing
+// primitive of every randomized signature key of a run, independently of the
+// provenance / sensitivity ladder: one signer signs the SAME message twice in
+// a row, then another message; the two signatures of the one message must differ.
+func (w *world) repeatedSign(ks *keyState, p *prim, third bool) {
+	r := w.r
+	loc := ks.loc
+	if p.kind != "factory" {
+		loc += "[" + p.kind + "]"
+	}
+	sign := func(msg []byte) []byte {
+		var out []byte
+		var err error
+		w.bracket(loc+".repeated-sign", func() { out, err = p.produce(msg, nil) })
+		if err != nil {
+			r.Violation("C20/call-failed:"+loc, fmt.Sprintf("%s: %v", ks.e.Name, err))
+			return nil
+		}
+		r.Obs("sig", out)
+		return append([]byte(nil), out...)
+	}
+	s1 := sign(messages[0])
+	s2 := sign(messages[0])
+	if s1 == nil || s2 == nil {
+		return
+	}
+	if bytes.Equal(s1, s2) {
+		r.Violation("C20/repeated-signature:"+loc, fmt.Sprintf("%s: one signer signed one message twice in a row and returned the same signature %s", ks.e.Name, core.Hex(s1, 32)))
+		return
+	}
+	ks.sigs[p.kind+"/0"] = append(ks.sigs[p.kind+"/0"], s1, s2)
+	if third { // and the signer goes on signing other messages afresh
+		s3 := sign(messages[2])
+		if s3 == nil {
+			return
+		}
+		if bytes.Equal(s3, s1) || bytes.Equal(s3, s2) {
+			r.Violation("C20/repeated-signature:"+loc, fmt.Sprintf("%s: the signature of another message equals the previous one", ks.e.Name))
+			return
+		}
+		ks.sigs[p.kind+"/2"] = append(ks.sigs[p.kind+"/2"], s3)
+	}
+	w.oracles["resign"] = true
+	r.Probe("repeated-signature-direct")
+}
+
+// slowSignerRun is the quick tier's rare run for the slow small-signature
+// SLH-DSA sets (about 0.7 s per signature): a pooled key, one signer, and only
+// the repeated-signing clause — no byte-flip re-runs, no further history.
+func (w *world) slowSignerRun() {
+	var cands []catalog.Entry
+	for _, e := range catalog.ByKeyType(catalog.Signature, "slhdsa") {
+		if p, ok := e.Params.(*slhdsa.Parameters); ok && p.KeySize() == 64 && p.SignatureType() == slhdsa.SmallSignature {
+			cands = append(cands, e)
+		}
+	}
+	if len(cands) == 0 {
+		w.t.Fatalf("harness: no SLH-DSA 128s entry in the catalog")
+	}
+	w.addKeyFor(cands[rapid.IntRange(0, len(cands)-1).Draw(w.t, "slowEntry")])
+	if len(w.keys) > 0 {
+		ks := w.keys[len(w.keys)-1]
+		var s3 []byte
+		var err error
+		w.bracket(ks.loc+".repeated-sign", func() { s3, err = ks.prims[0].produce(messages[2], nil) })
+		if err != nil {
+			w.r.Violation("C20/call-failed:"+ks.loc, fmt.Sprintf("%s: %v", ks.e.Name, err))
+			return
+		}
+		for _, prev := range ks.sigs["factory/0"] {
+			if bytes.Equal(prev, s3) {
+				w.r.Violation("C20/repeated-signature:"+ks.loc, fmt.Sprintf("%s: the signature of another message equals the previous one", ks.e.Name))
+				return
+			}
+		}
+	}
+	w.r.Probe("slow-signer-run")
 }
 
 // ---------------------------------------------------------------------------
@@ -2176,6 +2277,15 @@ func run(t *rapid.T) {
 		w.idSpread()
 	}
 
+	// one run in about 2000 of the quick tier: a slow "s" SLH-DSA signer, repeated-signing clause only
+	// (decided by a hash of the two drawn seeds: rapid's integer generators favour the ends of their range,
+	// a drawn "1 in 2000" would fire far more often)
+	if !core.Thorough() && rareHash(rngSeed, gseed)%slowSignerOneIn == 0 {
+		w.slowSignerRun()
+		g.ClearScript()
+		r.End(fmt.Sprintf("%s|slow-signer|%s|%s", w.keys[0].loc+"/"+w.keys[0].e.Variant, joinSet(w.oracles), joinSet(w.faults)), true)
+		return
+	}
 	nKeys := rapid.IntRange(1, 4).Draw(t, "nKeys")
 	for i := 0; i < nKeys; i++ {
 		w.addKey()
@@ -2227,6 +2337,14 @@ func run(t *rapid.T) {
 	sig := fmt.Sprintf("%s|keys%d|%s|%s|calls%s", first, len(w.keys), joinSet(w.oracles), joinSet(w.faults), cc)
 	r.ObsI("reruns", int64(w.reruns))
 	r.End(sig, len(w.oracles) > 0 && (len(w.faults) > 0 || w.calls > 3))
+}
+
+// rareHash mixes two drawn values into a uniformly spread one (splitmix64 finaliser).
+func rareHash(a, b uint64) uint64 {
+	x := a*0x9e3779b97f4a7c15 + b + 0x2545f4914f6cdd1d
+	x = (x ^ (x >> 30)) * 0xbf58476d1ce4e5b9
+	x = (x ^ (x >> 27)) * 0x94d049bb133111eb
+	return x ^ (x >> 31)
 }
 
 func joinSet(m map[string]bool) string {
